@@ -1,5 +1,6 @@
 SPECIFICATION Spec
 CONSTANTS
+  WithErr = FALSE
   Ext = FALSE
   FixTop = TRUE
   AllowAlias = FALSE
